@@ -111,6 +111,9 @@ func main() {
 		known = append(known, k)
 	}
 	sort.Strings(known)
+	if tot.Assume == nil {
+		tot.Assume = []string{}
+	}
 	if tot.Samples == nil {
 		tot.Samples = []json.RawMessage{}
 	}
